@@ -286,7 +286,7 @@ def _probe_conds(jm: JoinModel, a: Emission) -> Tuple:
     """Conditions, established inside the probe loop, under which emission `a` happens (the context's own guard included)."""
     it = jm.it
     base = len(it.loops[jm.probe_loop].conds)
-    return tuple(a.ev.conds[base:])
+    return jm.meaningful(a.ev.conds[base:])
 
 
 # --------------------------------------------------------------------------- d
